@@ -49,6 +49,8 @@ type vCluEnv struct {
 	closed     bool
 	userOut    []int // scripted outcomes for user requests
 	twoRegions bool
+	moved      bool // the region now lives on rs1; rs0 answers not-serving for it
+	stale      int  // hbase:meta still lists rs0 for this many more lookups
 }
 
 var vClu *vCluEnv
@@ -91,6 +93,10 @@ func (r *vCluRC) answer(c hrpc.Call) {
 	e := r.env
 	if r.closed > 0 || r.dead {
 		c.ResultChan() <- hrpc.RPCResult{Error: region.ErrClientClosed}
+		return
+	}
+	if e.moved && r.addr == "rs0:1" {
+		c.ResultChan() <- hrpc.RPCResult{Error: region.NotServingRegionError{}}
 		return
 	}
 	if !e.misbehave() {
@@ -142,6 +148,13 @@ func vLookupRegion(c *client, ctx context.Context, table, key []byte) (hrpc.Regi
 	}
 	if ctx.Err() != nil {
 		return nil, "", ctx.Err()
+	}
+	if e.moved {
+		if e.stale > 0 {
+			e.stale--
+			return vMkRegion(0, 1, nil, nil), "rs0:1", nil
+		}
+		return vMkRegion(0, 1, nil, nil), "rs1:1", nil
 	}
 	if e.misbehave() {
 		if verifBool() {
@@ -314,4 +327,23 @@ func VerifTwoCallers() {
 	}
 	verifAssert(verifGoroutines() == 0, "no goroutine is left running or blocked")
 	verifReach("both-returned")
+}
+
+// VerifRegionMoved (C04): the region moved to another server while hbase:meta still lists the
+// old one for the next 0..STALE lookups: the request ends up served by the new server.
+func VerifRegionMoved() {
+	c, e := vCluSetup()
+	reg := vMkRegion(0, 1, nil, nil)
+	c.regions.put(reg)
+	reg.SetClient(c.clients.put("rs0:1", reg, func() hrpc.RegionClient { return e.factory("rs0:1", "", 0, 0, "", 0, nil, nil, nil) }))
+	e.moved = true
+	e.stale = verifInt(0, verifParam("STALE"))
+	var res vUserResult
+	vUserGet(c, context.Background(), "k", &res, nil)
+	verifQuiesce()
+	sleepAndIncreaseBackoffOverride = nil
+	verifAssert(res.done && res.err == nil, "the request succeeds once hbase:meta lists the new server")
+	verifAssert(reg.Client() != nil && reg.Client().Addr() == "rs1:1", "the region is served by the server that hosts it now")
+	verifAssert(verifGoroutines() == 0, "no goroutine is left")
+	verifReach("moved")
 }
